@@ -342,7 +342,11 @@ class _ReadSourceGenerator:
                 if issubclass(read_type, Int):
                     # Also covers enums and flags with an arbitrary width integer as underlying type
                     reads.append(f"_b = {getter}")
-                    item_parser = parser_template.format(type="_et", getter=f"_b[i:i + {read_type.size}]")
+                    if issubclass(field_type.type, Pointer):
+                        # The pointer type of this cstruct is an arbitrary width integer, which parses the address itself
+                        item_parser = f"_et.__new__(_et, cls.cs.pointer(_b[i:i + {read_type.size}]), stream, r)"
+                    else:
+                        item_parser = parser_template.format(type="_et", getter=f"_b[i:i + {read_type.size}]")
                     list_comp = f"[{item_parser} for i in range(0, {count}, {read_type.size})]"
                 elif issubclass(field_type.type, Pointer):
                     item_parser = "_et.__new__(_et, e, stream, r)"
@@ -356,6 +360,9 @@ class _ReadSourceGenerator:
                 parser = f"type.__call__({self._map_field(field)}, {getter})"
             elif issubclass(field_type, Pointer):
                 reads.append(f"_pt = {self._map_field(field)}")
+                if issubclass(read_type, Int):
+                    # The pointer type of this cstruct is an arbitrary width integer, which parses the address itself
+                    getter = f"cls.cs.pointer({getter})"
                 parser = f"_pt.__new__(_pt, {getter}, stream, r)"
             else:
                 parser = parser_template.format(type=self._map_field(field), getter=getter)
